@@ -48,17 +48,20 @@ def patched_close(self):
 ptm.FileProcessTensor.close = patched_close
 
 
-def build_export_pt(n=4):
+def build_export_pt(n=4, dt=0.2):
     from mc import ancilla as A, refmodel as R
     from props import models as M
     d, e = 2, 2
     sigma = np.diag([0.7, 0.3]).astype(complex)
     ks = [[R.random_free_unitary(d * e, 80 + k)] for k in range(n)]
-    return A.build_pt(d, e, sigma, ks, dt=0.2, basis_v=M.generic_unitary(2, 4), name="c17", description="export")
+    return A.build_pt(d, e, sigma, ks, dt=dt, basis_v=M.generic_unitary(2, 4), name="c17", description="export")
 
 
 if mode == "export":
     build_export_pt().export(fname)
+elif mode == "export_nodt":
+    # a process tensor without a time step (dt=None), as hand-built PT-MPOs may be
+    build_export_pt(dt=None).export(fname)
 elif mode == "export8":
     build_export_pt(8).export(fname)
 elif mode == "export_over":
